@@ -8,6 +8,7 @@ TV : per configuration 10^6 samples (sensor: sums, sample variance, counts of no
 import math
 
 import torch
+from .core import sint
 
 from . import tlc, tv
 
@@ -48,7 +49,7 @@ def run(run):
                     if mu > 100 or (0 < mu < 0.002) or abs(mu * 1000 - round(mu * 1000)) > 1e-6:
                         continue        # rates are logged in 1/1000: keep to rates that are exact in that unit
                     cfg = {"channel": "PoissonChannel", "rate_factor": lamf, "x": xv, "complex": cplx, "normalize": norm, "ndim": len(shape), "rate_type": type(lam).__name__}
-                    e = {"ev": "Poisson", "raised": False, "negative_input": False, "N": N, "mu_milli": int(round(mu * 1000)), "sum": 0, "var_ppm": 1000000, "nonint": 0, "negcount": 0,
+                    e = {"ev": "Poisson", "raised": False, "negative_input": False, "N": N, "mu_milli": sint(mu * 1000), "sum": 0, "var_ppm": 1000000, "nonint": 0, "negcount": 0,
                          "phase_err_ppm": 0, "shape_ok": True}
                     try:
                         if cplx:
@@ -61,14 +62,14 @@ def run(run):
                         e["shape_ok"] = tuple(y.shape) == tuple(shape) and y.is_complex() == cplx
                         e["nonint"] = int(((c - c.round()).abs() > 1e-4 * c.abs().clamp(min=1.0)).sum())
                         e["negcount"] = int((c < -1e-9).sum()) if not cplx else 0
-                        e["sum"] = int(round(float(c.sum())))
+                        e["sum"] = sint(float(c.sum()))
                         if mu > 0:
-                            e["var_ppm"] = int(round(min(float(c.var()) / mu, 2000.0) * 1e6))
+                            e["var_ppm"] = sint(min(float(c.var()) / mu, 2000.0) * 1e6)
                         if cplx:
                             nz = y.abs() > 0
                             if bool(nz.any()):
                                 d = torch.angle(y[nz] * torch.conj(x[nz]))
-                                e["phase_err_ppm"] = int(round(float(d.abs().max()) * 1e6))
+                                e["phase_err_ppm"] = sint(float(d.abs().max()) * 1e6)
                     except Exception as ex:
                         e["raised"] = True
                         e["error"] = repr(ex)[:100]
@@ -88,20 +89,20 @@ def run(run):
             shape = shapes[ci % 3]
             sgf = float(sg)
             cfg = {"channel": "PhaseNoiseChannel", "sigma": sgf, "complex": cplx, "ndim": len(shape), "sigma_type": type(sg).__name__}
-            e = {"ev": "Phase", "raised": False, "N": N, "sigma_milli": int(round(sgf * 1000)), "mag_err_ppm": 0, "complex_out": True, "shape_ok": True, "identity": True, "var_ppm": 1000000, "mean_ppm": 0}
+            e = {"ev": "Phase", "raised": False, "N": N, "sigma_milli": sint(sgf * 1000), "mag_err_ppm": 0, "complex_out": True, "shape_ok": True, "identity": True, "var_ppm": 1000000, "mean_ppm": 0}
             try:
                 x = torch.polar(torch.rand(shape) + 0.5, torch.rand(shape) * 2 * math.pi - math.pi) if cplx else (torch.rand(shape) + 0.5) * torch.sign(torch.randn(shape))
                 y = PhaseNoiseChannel(phase_noise_std=sg)(x)
                 xc = x if cplx else torch.complex(x, torch.zeros_like(x))
                 e["complex_out"] = bool(y.is_complex())
                 e["shape_ok"] = tuple(y.shape) == tuple(shape)
-                e["mag_err_ppm"] = int(round(float((y.abs() / xc.abs() - 1).abs().max()) * 1e6))
+                e["mag_err_ppm"] = sint(float((y.abs() / xc.abs() - 1).abs().max()) * 1e6)
                 th = torch.angle(y * torch.conj(xc)).double()
                 if sgf == 0:
                     e["identity"] = bool(torch.allclose(y, xc, rtol=0, atol=1e-7))
                 else:
-                    e["var_ppm"] = int(round(min(float((th ** 2).mean()) / (sgf * sgf), 2000.0) * 1e6))
-                    e["mean_ppm"] = int(round(abs(float(th.mean())) / sgf * 1e6))
+                    e["var_ppm"] = sint(min(float((th ** 2).mean()) / (sgf * sgf), 2000.0) * 1e6)
+                    e["mean_ppm"] = sint(abs(float(th.mean())) / sgf * 1e6)
             except Exception as ex:
                 e["raised"] = True
                 e["error"] = repr(ex)[:100]
